@@ -11,6 +11,28 @@ CLAIMED = {
             "Theorems c08_* (never early, always once expired, cooldown blocks and is <= 1 min, refresh opportunity, exact schedule, metadata consistency) proved for all integer timestamps over Model/SessionTime.v instantiated at the constants dumped from the compiled code; the model is tied to pkg/session/data.go by an exhaustive boundary grid evaluated on the real Metadata methods under testing/synctest.",
             "Trusts: Coq kernel; hand-written transliteration tied by the differential grid; no int64 overflow; Go zero time = absent timeout. Pins: leeway = 5 min, min interval = 1 min.",
             "5/C08"),
+    "C01": ("Coq theorems on the session machine (token decision, direct path, refresh identity) + differential histories/faults/schedules vs the real stack",
+            "Theorems c01_* over Model/Machine.v: a token is written only for a session record that is unexpired and satisfies the level, it is that record's token / ID token; on the direct path the record is the store entry opened by the cookie's data key at that very moment; conversely a valid session is always served and a non-session never. The model is tied to the real router+handlers+session manager+store by per-event conformance (operation, outcome, store snapshot) on generated histories, fault sequences and exhaustive 2-thread schedules under a fake clock; a monitor written from the property text checks every forwarded header on the implementation's traces.",
+            "Trusts: Coq kernel; hand-written machine model tied by differential conformance; tokens/keys as abstract ids (ideal encryption); fake identity provider; miniredis as Redis. The refresh path's 'current token' clause is covered by the monitor on traces (the theorem covers the decision function and the direct path).",
+            "5/C01"),
+    "C05": ("Coq invariant over all event lists (absent stays absent; later requests sessionless) + exhaustive interleavings on the real stack",
+            "c05_deleted_stays_deleted / c05_later_requests_unauthenticated hold for every schedule, number of threads, fault sequence and crash point of the machine with the conditional write; c05_update_race_refuted documents the pre-fix defect (fixed in /repo), c05_relogin_overwrite_refuted the remaining known finding (re-login under the same provider session id during an in-flight refresh). Exhaustive 2-thread interleavings of every logout variant with refresh/proxy requests, crashes, and histories run on the real code and must agree with the model event by event.",
+            "Trusts as C01. Hypothesis of the theorems: no re-login under the same session id in the continuation (dropping it is refuted; that case is a recorded known finding). Browser-side cookie clearing is C14's.",
+            "5/C05"),
+    "C06": ("Coq invariant over all event lists (end = creation + max lifetime for every record anywhere) + boundary histories",
+            "c06_life_invariant: in every reachable state every session record (stored or held by any request) ends at creation + max lifetime and, with inactivity, has a deadline <= last refresh + timeout; acceptance implies now <= both (c06_accepted_within_lifetime, c06_validate_exact). Histories place the clock at +-1 ns / +-1 s of every boundary on the real stack (fake clock) and the endpoint table (401 / inactive-but-readable) is checked by the monitor.",
+            "Trusts as C01.", "5/C06"),
+    "C07": ("Coq invariant (fresh lock tokens => at most one valid lock holder, all schedules) + exhaustive interleavings on both stores",
+            "c07_mutual_exclusion: for every event list, at most one thread is a valid holder of a session's refresh lock (Redis lock and in-memory lock). c07_memory_store_refuted documents the pre-fix no-op lock (fixed in /repo). Clauses (ii)-(v) (refresh token presented once, one grant per cooldown, previous-or-new token, stored pair issued together) are decided by the monitor over exhaustive 2-thread (sampled 3-thread in thorough) interleavings on the real stack with the provider log, in agreement with the model.",
+            "Trusts as C01. The 'presented at most once' clause is proved only through mutual exclusion + the model's agreement with the code on all explored schedules (no separate Coq theorem for it); lease assumed not to expire while held, as the property allows.",
+            "5/C07"),
+    "C10": ("Coq invariant over all event lists (every entry and lock expiry-bounded; crash = thread never run again) + TTL observation after every step",
+            "c10_ttl_invariant for every schedule / fault / crash: every session entry has an expiry <= now + max lifetime, every lock <= now + lease; consequences c10_live_entry_ttl (0 < ttl <= L) and c10_lock_gone_after_lease. The harness reads the TTL of every key in (mini)Redis after every scheduling step, including crash runs with every operation boundary as abandonment point, and compares with the model.",
+            "Trusts as C01. The sharper bound 'counted from that session's creation' is checked by the monitor; it fails only in the recorded re-login overwrite scenario (known finding shared with C05).",
+            "5/C10"),
+    "C11": ("Coq step lemmas quantified over the fault argument (fail-closed, absorption, strict logout) + fault grid on the real stack",
+            "c11_* theorems: token only from a session record and never expired; a session is entered only through a successful un-faulted read; provider 4xx => unauthenticated in every handler; transient store fault / 5xx within the retry budget is a stutter; logout variants report success only after an answered lookup and an executed delete. Faults (store error, cancellation, 4xx, 5xx, malformed body) are injected at every operation position of every request kind on the real stack (fake clock makes back-offs free) and must agree with the model; the monitor checks the property clauses on the traces.",
+            "Trusts as C01; retry budget is the time budget of pkg/retry (pinned 5 s).", "5/C11"),
 }
 
 ALL = ["C%02d" % i for i in range(1, 21)]
